@@ -535,7 +535,41 @@ def _open_test_call(F, f, d, t):
 def _open_test(F, f, d, g):
     """None | 'url' | 'path': is this gate a test that the client does NOT have the file open, and by what is it keyed. The test
     may sit in a predicate of the server (`self.is_opened_path(&vpath)`) whose answer is one such call."""
-    if g.get("allowed") != [False] or "call_t" not in g:
+    if g.get("allowed") != [False]:
+        return None
+    if "call_t" not in g:
+        # the loop form: `let mut open = false; for k in self.opened_files.keys() { if k.to_vfs_path() == vpath { open = true; break } }`
+        # then `if open { continue }`: a bool with a `false` and a `true` definition, the `true` one under a comparison that
+        # involves the open documents
+        o = g.get("origin") or {}
+        if o.get("k") != "multi" or (f.local_ty(o.get("l")) or "") != "bool":
+            return None
+        kinds = []
+        consts = set()
+        for db_, _i, kind_, payload in o.get("defs", []):
+            if kind_ != "assign":
+                return None
+            k = (payload["rv"].get("op") or {}).get("k") if payload["rv"]["k"] == "use" else None
+            if not (isinstance(k, dict) and str(k.get("bits")) in ("0", "1")):
+                return None
+            consts.add(str(k["bits"]))
+            if str(k["bits"]) == "1":
+                for g2 in FL.gates(F, f, [db_], d):
+                    o2 = g2.get("origin") or {}
+                    ops = []
+                    if o2.get("k") == "rv" and o2["rv"].get("k") == "bin" and o2["rv"]["op"] in ("Eq", "Ne"):
+                        ops = [o2["rv"]["a"], o2["rv"]["b"]]
+                    elif g2.get("call_t") and FL.short(callee(g2["call_t"]) or callee_def(g2["call_t"]) or "").rsplit("::", 1)[-1] in ("eq", "ne"):
+                        ops = g2["call_t"]["args"]
+                    fields, calls = set(), set()
+                    for x in ops:
+                        if isinstance(x, dict) and "k" not in x:
+                            fields |= {str(y) for y in FL.fields_feeding(F, f, d, x, "Server")}
+                            calls |= {FL.short(c_).rsplit("::", 1)[-1] for c_ in FL.depends(F, f, d, x)["calls"]}
+                    if "opened_files" in fields:
+                        kinds.append("path" if calls & {"to_vfs_path", "to_file_path"} else "url")
+        if consts == {"0", "1"} and len(kinds) == 1:
+            return kinds[0]
         return None
     t = g["call_t"]
     r = _open_test_call(F, f, d, t)
